@@ -58,14 +58,29 @@ def run_impl(c):
     k = c["k"]
     if k == "get":
         t = _timing(c)
+        def hostile(raw):
+            """a caller that edits whatever list it was handed"""
+            if isinstance(raw, list):
+                raw.reverse()
+                raw.extend(raw[:1] * 2)
+                del raw[:1]
+                raw.clear()
+
         def f():
-            out = list(t.get_timestamps(_argv(c["i"]), _argv(c["n"])))
+            if c["mode"] == 2:
+                # an earlier full-window request whose result the caller then edits
+                try:
+                    hostile(t.get_timestamps(0, len(c["tss"])))
+                except Exception:
+                    pass
+            raw = t.get_timestamps(_argv(c["i"]), _argv(c["n"]))
+            out = list(raw)
+            hostile(raw)
+            again = list(t.get_timestamps(_argv(c["i"]), _argv(c["n"])))
+            if again != out:
+                raise RuntimeError("the Timing changed when a returned list was edited")
             return [read_dtm(x) for x in out]
-        r = vf.try_impl(f)
-        if "ok" in r and c["mode"] == 2:
-            # the caller's copy must be independent
-            pass
-        return r
+        return vf.try_impl(f)
     if k == "start":
         t = _timing(c)
         return vf.try_impl(lambda: read_dtm(t.start_time))
